@@ -190,6 +190,25 @@ var Profiles = map[string]func() Profile{
 		p.Caps = [][]int{{65}, {100}, {128}, {128, 65}, {70, 100}, {256}, {64}, {8}}
 		return p
 	},
+	// scale: thousands of entities in few tables (several capacity doublings), hundreds of relation targets (hundreds of
+	// relation tables per archetype), long free lists - counters and indices beyond 8 and 16 bits
+	"scale": func() Profile {
+		p := base()
+		p.Name = "scale"
+		p.W = wts(int(KNewEntity), 14, int(KNewBatch), 22, int(KSetRel), 28, int(KSetRelBatch), 6, int(KRemoveEntities), 6, int(KRemoveEntity), 10,
+			int(KAddBatch), 4, int(KRemoveBatch), 4, int(KExchangeBatch), 3, int(KAdd), 5, int(KRemove), 4, int(KExchange), 3, int(KWrite), 3,
+			int(KShrink), 3, int(KReset), 1, int(KRegFilter), 2, int(KUnregFilter), 1, int(KCopy), 2)
+		p.MaxAlive = 2500
+		p.MaxBatchNew = 900
+		p.HotComps = 3
+		p.MaxComps = 2
+		p.RelPct = 85
+		p.TargetPool = 400
+		p.FilterSlots = 2
+		p.TypedPct = 30
+		p.Caps = [][]int{nil, {1}, {8, 1}, {64}, {300, 2}}
+		return p
+	},
 	"reset": func() Profile {
 		p := base()
 		p.Name = "reset"
